@@ -1347,6 +1347,107 @@ pub fn cli_unit(ctx: &Ctx, rng: &mut Rng, o: &mut Out) {
   rep_oracle.finish(o);
 }
 
+/// Positions inside INJECTED documents, through the real CLI: `languageInjections` of sgconfig.yml
+/// (a tagged template whose tag expression spans several lines, so that the injected text starts
+/// lines below the start of the host match) and the built-in HTML injections. Every reported
+/// line / column (match and meta variables) equals the line count / character count computed from
+/// the reported byte offset in the FILE; `text` is the file's bytes at that range.
+pub fn injected_positions(_ctx: &Ctx, rng: &mut Rng, o: &mut Out) {
+  let dir = tempfile::tempdir().expect("tempdir");
+  let w = |rel: &str, text: &str| {
+    let p = dir.path().join(rel);
+    std::fs::create_dir_all(p.parent().unwrap()).unwrap();
+    std::fs::write(p, text).unwrap();
+  };
+  w(
+    "sgconfig.yml",
+    "ruleDirs: [rules]\nlanguageInjections:\n- hostLanguage: js\n  rule:\n    pattern: styled.$TAG`$CONTENT`\n  injected: css\n- hostLanguage: js\n  rule:\n    pattern: styled($$$ARGS)`$CONTENT`\n  injected: css\n",
+  );
+  w("rules/decl.yml", "id: css-decl\nlanguage: css\nseverity: warning\nmessage: declaration\nrule: {kind: declaration}\n");
+  w("rules/val.yml", "id: css-val\nlanguage: css\nseverity: hint\nmessage: value $V\nrule: {pattern: {context: 'a { margin: $V }', selector: declaration}}\n");
+  w("rules/call.yml", "id: js-call\nlanguage: JavaScript\nseverity: hint\nmessage: call\nrule: {pattern: 'foo($A)'}\n");
+  let mut files: Vec<(String, String)> = vec![];
+  for k in 0..6 {
+    let nl = if k % 3 == 2 { "\r\n" } else { "\n" };
+    let lead = *rng.pick(&["", "// h\u{e9} \u{4e2d}\n", "foo('\u{1d4b3}'); "]);
+    let tag = match k % 3 {
+      0 => "styled.div".to_string(),
+      1 => format!("styled({nl}  Button,{nl})"),
+      _ => format!("styled(Button, /* \u{e9} */{nl}{nl}  Other)"),
+    };
+    let body = format!("{nl}  margin: 0; /* h\u{e9} */ top: 0;{nl}  /* \u{e9}\u{e9} */ padding: 1px;{nl}");
+    files.push((format!("src/t{k}.js"), format!("{lead}const A{k} = {tag}`{body}`{nl}foo({k}){nl}const B{k} = styled.a`color: red;`{nl}")));
+  }
+  files.push(("src/page.html".into(), "<p>\u{e9}</p>\n<script\n  type=\"module\"\n>\nfoo(1); // \u{4e2d}\n  foo('\u{e9}')\n</script>\n<style\n  media=\"print\">\n.a { margin: 0; }\n</style>\n".into()));
+  for (rel, text) in &files {
+    w(rel, text);
+  }
+  let out = run_cli(&["scan".to_string(), "--json=stream".to_string(), "src".to_string()], dir.path(), Duration::from_secs(60));
+  let mut cases = 0usize;
+  let mut per_rule: BTreeMap<String, usize> = BTreeMap::new();
+  let pos = |src: &str, off: usize| -> (u64, u64) {
+    let before = &src[..off];
+    let line = before.matches('\n').count() as u64;
+    let col = before[before.rfind('\n').map(|i| i + 1).unwrap_or(0)..].chars().count() as u64;
+    (line, col)
+  };
+  let (stdout, code) = match out {
+    CliOut::Done { stdout, code } => (String::from_utf8_lossy(&stdout).to_string(), code),
+    CliOut::Hang => (String::new(), None),
+  };
+  if code.is_none() || stdout.trim().is_empty() {
+    o.oracle("injected-positions", false, json!({"fp": "scan of a project with languageInjections fails or hangs", "code": code}));
+  }
+  for line in stdout.lines().filter(|l| !l.trim().is_empty()) {
+    let Ok(v) = serde_json::from_str::<Value>(line) else {
+      o.oracle("injected-positions", false, json!({"fp": "json record does not parse", "line": line.chars().take(200).collect::<String>()}));
+      continue;
+    };
+    let file = v["file"].as_str().unwrap_or("").trim_start_matches("./").to_string();
+    let Some((_, src)) = files.iter().find(|f| f.0 == file) else { continue };
+    *per_rule.entry(v["ruleId"].as_str().unwrap_or("").to_string()).or_default() += 1;
+    let mut nodes: Vec<(String, Value)> = vec![("match".into(), v.clone())];
+    if let Some(m) = v["metaVariables"]["single"].as_object() {
+      for (k, n) in m {
+        nodes.push((format!("${k}"), n.clone()));
+      }
+    }
+    for (what, n) in nodes {
+      cases += 1;
+      let (s, e) = (n["range"]["byteOffset"]["start"].as_u64().unwrap_or(u64::MAX) as usize, n["range"]["byteOffset"]["end"].as_u64().unwrap_or(u64::MAX) as usize);
+      if !(s <= e && e <= src.len() && src.is_char_boundary(s) && src.is_char_boundary(e)) {
+        o.oracle("injected-positions", false, json!({"fp": "byte range of a record is no range of the file", "file": file, "what": what, "range": [s, e]}));
+        continue;
+      }
+      let want = (pos(src, s), pos(src, e));
+      let got = (
+        (n["range"]["start"]["line"].as_u64().unwrap_or(u64::MAX), n["range"]["start"]["column"].as_u64().unwrap_or(u64::MAX)),
+        (n["range"]["end"]["line"].as_u64().unwrap_or(u64::MAX), n["range"]["end"]["column"].as_u64().unwrap_or(u64::MAX)),
+      );
+      let text_ok = n["text"].as_str() == Some(&src[s..e]);
+      if want != got || !text_ok {
+        let lang = v["language"].as_str().unwrap_or("");
+        o.oracle("injected-positions", false, json!({"fp": format!("position in an injected document differs from the byte offset: language={lang} rows_differ={} cols_differ={} text_ok={text_ok}", want.0 .0 != got.0 .0 || want.1 .0 != got.1 .0, want.0 .1 != got.0 .1 || want.1 .1 != got.1 .1),
+          "file": file, "what": what, "bytes": [s, e], "reported": [got.0 .0, got.0 .1, got.1 .0, got.1 .1], "from_bytes": [want.0 .0, want.0 .1, want.1 .0, want.1 .1], "src": src}));
+      }
+    }
+  }
+  // every injected region is searched: 4 declarations per script file (3 in the first template,
+  // 1 in the second — the regions of the two injection rules interleave) and 1 in the HTML style
+  let want_decl = 6 * 4 + 1;
+  if per_rule.get("css-decl").copied().unwrap_or(0) != want_decl {
+    o.oracle("injected-positions", false, json!({"fp": "findings of injected documents are missing (regions of two injection rules for one language interleave)",
+      "css-decl": per_rule.get("css-decl"), "expected": want_decl}));
+  }
+  // the generator did produce embedded matches of every kind
+  for rid in ["css-decl", "css-val", "js-call"] {
+    if per_rule.get(rid).copied().unwrap_or(0) == 0 {
+      o.oracle("injected-positions", false, json!({"fp": format!("no record of rule {rid} in the injected documents"), "per_rule": per_rule}));
+    }
+  }
+  o.oracle("injected-positions", true, json!({"cases": cases, "per_rule": per_rule}));
+}
+
 pub fn exec(op: &str, a: &Value) -> Option<Value> {
   Some(match op {
     "char_column" => do_char_column(a),
